@@ -97,15 +97,150 @@ Fixpoint bulk (fuel : nat) (s : state) (buffer : list nat) : state * list event 
     end
   end.
 
-(* k single steps inside one state = one bulk copy *)
-Lemma run1_header buf k rest : length buf + k < 4 -> length rest = k ->
+(* ---- bulk copies inside one state, expressed with run1 ---- *)
+Lemma run1_header_partial : forall rest buf, length buf + length rest < 4 ->
   run1 (Header buf) rest = (Header (buf ++ rest), []).
 Proof.
-  revert buf k; induction rest as [|b r IH]; intros buf k Hk Hl; cbn [run1].
+  induction rest as [|b r IH]; intros buf Hk; cbn [run1].
   - now rewrite app_nil_r.
-  - unfold step1; cbn [eps consume]. cbn [length] in Hl.
-    destruct (Nat.eqb_spec (length (buf ++ [b])) 4) as [E|_].
-    + rewrite app_length in E; cbn in E; lia.
-    + rewrite (IH (buf ++ [b]) (k - 1)); [now rewrite <- app_assoc|rewrite app_length; cbn; lia|lia].
+  - unfold step1; cbn [eps consume]. cbn [length] in Hk.
+    destruct (Nat.eqb_spec (length (buf ++ [b])) 4) as [E|_]; [rewrite app_length in E; cbn [length] in *; lia|].
+    rewrite IH by (rewrite app_length; cbn; lia). now rewrite <- app_assoc.
+Qed.
+
+Lemma run1_header_complete : forall rest buf, rest <> [] -> length buf + length rest = 4 ->
+  run1 (Header buf) rest = after_header (buf ++ rest).
+Proof.
+  induction rest as [|b r IH]; intros buf Hne Hk; [congruence|]. cbn [run1].
+  unfold step1; cbn [eps consume]. cbn [length] in Hk.
+  destruct r as [|b2 r].
+  - cbn [run1]. destruct (Nat.eqb_spec (length (buf ++ [b])) 4) as [_|N]; [|rewrite app_length in N; cbn [length] in *; lia].
+    destruct (after_header (buf ++ [b])) as [s e]. now rewrite app_nil_r.
+  - destruct (Nat.eqb_spec (length (buf ++ [b])) 4) as [E|_]; [rewrite app_length in E; cbn [length] in *; lia|].
+    rewrite IH; [rewrite <- app_assoc; cbn [app]; destruct (after_header _); reflexivity|discriminate|rewrite app_length; cbn [length] in *; lia].
+Qed.
+
+Lemma run1_message_partial : forall rest size acc, length acc + length rest < size ->
+  run1 (Message size acc) rest = (Message size (acc ++ rest), []).
+Proof.
+  induction rest as [|b r IH]; intros size acc Hk; cbn [run1].
+  - now rewrite app_nil_r.
+  - unfold step1; cbn [eps consume]. cbn [length] in Hk.
+    destruct (Nat.eqb_spec (length (acc ++ [b])) size) as [E|_]; [rewrite app_length in E; cbn [length] in *; lia|].
+    rewrite IH by (rewrite app_length; cbn; lia). now rewrite <- app_assoc.
+Qed.
+
+Lemma run1_message_complete : forall rest size acc, rest <> [] -> length acc + length rest = size ->
+  run1 (Message size acc) rest = (after_message (acc ++ rest), []).
+Proof.
+  induction rest as [|b r IH]; intros size acc Hne Hk; [congruence|]. cbn [run1].
+  unfold step1; cbn [eps consume]. cbn [length] in Hk.
+  destruct r as [|b2 r].
+  - cbn [run1]. destruct (Nat.eqb_spec (length (acc ++ [b])) size) as [_|N]; [reflexivity|rewrite app_length in N; cbn [length] in *; lia].
+  - destruct (Nat.eqb_spec (length (acc ++ [b])) size) as [E|_]; [rewrite app_length in E; cbn [length] in *; lia|].
+    rewrite IH; [now rewrite <- app_assoc|discriminate|rewrite app_length; cbn [length] in *; lia].
+Qed.
+
+Lemma run1_body_partial : forall rest meta need acc, length acc + length rest < need ->
+  run1 (Body meta need acc) rest = (Body meta need (acc ++ rest), []).
+Proof.
+  induction rest as [|b r IH]; intros meta need acc Hk; cbn [run1].
+  - now rewrite app_nil_r.
+  - unfold step1; cbn [eps consume]. cbn [length] in Hk.
+    destruct (Nat.eqb_spec (length acc) need) as [E|_]; [lia|]. cbn [consume app].
+    destruct (Nat.eqb_spec (length (acc ++ [b])) need) as [E|_]; [rewrite app_length in E; cbn [length] in *; lia|].
+    rewrite IH by (rewrite app_length; cbn; lia). now rewrite <- app_assoc.
+Qed.
+
+Lemma run1_body_complete : forall rest meta need acc, rest <> [] -> length acc + length rest = need ->
+  run1 (Body meta need acc) rest = (Header [], [Msg meta (acc ++ rest)]).
+Proof.
+  induction rest as [|b r IH]; intros meta need acc Hne Hk; [congruence|]. cbn [run1].
+  unfold step1; cbn [eps consume]. cbn [length] in Hk.
+  destruct (Nat.eqb_spec (length acc) need) as [E|_]; [lia|]. cbn [consume app].
+  destruct r as [|b2 r].
+  - cbn [run1]. destruct (Nat.eqb_spec (length (acc ++ [b])) need) as [_|N]; [reflexivity|rewrite app_length in N; cbn [length] in *; lia].
+  - destruct (Nat.eqb_spec (length (acc ++ [b])) need) as [E|_]; [rewrite app_length in E; cbn [length] in *; lia|].
+    rewrite IH; [now rewrite <- app_assoc|discriminate|rewrite app_length; cbn [length] in *; lia].
+Qed.
+
+Lemma run1_failed rest : run1 Failed rest = (Failed, []).
+Proof. induction rest as [|b r IH]; cbn [run1]; [reflexivity|]. unfold step1; cbn. now rewrite IH. Qed.
+
+Lemma wf_after_header buf : wf (fst (after_header buf)).
+Proof. unfold after_header. destruct (Nat.eqb_spec (size_of buf) 0); cbn; [exact I|lia]. Qed.
+Lemma wf_after_message meta : wf (after_message meta).
+Proof. unfold after_message; cbn. destruct (body_len meta); [right; auto|left; lia]. Qed.
+
+(* events agree; final states agree (a Failed decoder simply stops reading) *)
+Definition slack (s : state) : nat := match s with Body _ 0 _ => 2 | _ => 1 end.
+Lemma slack_le s : slack s <= 2.
+Proof. destruct s as [| | ? [|?] ?| |]; cbn; lia. Qed.
+
+Theorem bulk_is_run1 : forall fuel s buffer, wf s -> 2 * length buffer + slack s <= fuel ->
+  bulk fuel s buffer = run1 s buffer.
+Proof.
+  induction fuel as [|fuel IH]; intros s buffer Hwf Hf; [destruct s as [| | ? [|?] ?| |]; cbn [slack] in Hf; lia|].
+  destruct buffer as [|b0 buffer0]; [reflexivity|].
+  cbn [bulk].
+  remember (b0 :: buffer0) as buffer eqn:Eb.
+  assert (Hne : buffer <> []) by (rewrite Eb; discriminate).
+  assert (Hlen : 0 < length buffer) by (rewrite Eb; cbn; lia).
+  destruct s as [buf|size acc|meta need acc| |]; cbn [wf] in Hwf.
+  - (* Header *)
+    set (k := Nat.min (length buffer) (4 - length buf)).
+    assert (Hk : 0 < k <= length buffer) by (unfold k; lia).
+    replace (run1 (Header buf) buffer) with (run1 (Header buf) (firstn k buffer ++ skipn k buffer)) by (now rewrite firstn_skipn).
+    rewrite run1_app.
+    assert (Lf : length (firstn k buffer) = k) by (rewrite firstn_length; lia).
+    destruct (Nat.eqb_spec (length (buf ++ firstn k buffer)) 4) as [E|NE].
+    + rewrite run1_header_complete; [|intros C; rewrite C in Lf; cbn in Lf; lia|rewrite app_length in E; lia].
+      pose proof (wf_after_header (buf ++ firstn k buffer)) as W.
+      destruct (after_header (buf ++ firstn k buffer)) as [s' e]. cbn [fst] in W.
+      rewrite IH; [reflexivity|exact W|rewrite skipn_length; match goal with |- context [slack ?x] => pose proof (slack_le x) end; cbn [slack] in Hf; lia].
+    + rewrite app_length in NE. rewrite run1_header_partial by (unfold k in *; lia).
+      rewrite IH; [destruct (run1 _ _); reflexivity|cbn; rewrite app_length; unfold k in *; lia|rewrite skipn_length; match goal with |- context [slack ?x] => pose proof (slack_le x) end; cbn [slack] in Hf; lia].
+  - (* Message *)
+    set (k := Nat.min (length buffer) (size - length acc)).
+    assert (Hk : 0 < k <= length buffer) by (unfold k; lia).
+    replace (run1 (Message size acc) buffer) with (run1 (Message size acc) (firstn k buffer ++ skipn k buffer)) by (now rewrite firstn_skipn).
+    rewrite run1_app.
+    assert (Lf : length (firstn k buffer) = k) by (rewrite firstn_length; lia).
+    destruct (Nat.eqb_spec (length (acc ++ firstn k buffer)) size) as [E|NE].
+    + rewrite run1_message_complete; [|intros C; rewrite C in Lf; cbn in Lf; lia|rewrite app_length in E; lia].
+      rewrite IH; [destruct (run1 _ _); reflexivity|apply wf_after_message|rewrite skipn_length; match goal with |- context [slack ?x] => pose proof (slack_le x) end; cbn [slack] in Hf; lia].
+    + rewrite app_length in NE. rewrite run1_message_partial by (unfold k in *; lia).
+      rewrite IH; [destruct (run1 _ _); reflexivity|cbn; rewrite app_length; unfold k in *; lia|rewrite skipn_length; match goal with |- context [slack ?x] => pose proof (slack_le x) end; cbn [slack] in Hf; lia].
+  - (* Body *)
+    destruct Hwf as [Hlt|[-> ->]].
+    + destruct need as [|need']; [lia|]. cbn [slack] in Hf. set (need := S need') in *.
+      set (k := Nat.min (length buffer) (need - length acc)).
+      assert (Hk : 0 < k <= length buffer) by (unfold k; lia).
+      replace (run1 (Body meta need acc) buffer) with (run1 (Body meta need acc) (firstn k buffer ++ skipn k buffer)) by (now rewrite firstn_skipn).
+      rewrite run1_app.
+      assert (Lf : length (firstn k buffer) = k) by (rewrite firstn_length; lia).
+      destruct (Nat.eqb_spec (length (acc ++ firstn k buffer)) need) as [E|NE].
+      * rewrite run1_body_complete; [|intros C; rewrite C in Lf; cbn in Lf; lia|rewrite app_length in E; lia].
+        rewrite IH; [destruct (run1 _ _); reflexivity|cbn; lia|rewrite skipn_length; match goal with |- context [slack ?x] => pose proof (slack_le x) end; cbn [slack] in Hf; lia].
+      * rewrite app_length in NE. rewrite run1_body_partial by (unfold k in *; lia).
+        rewrite IH; [destruct (run1 _ _); reflexivity|cbn; left; rewrite app_length; unfold k in *; lia|rewrite skipn_length; match goal with |- context [slack ?x] => pose proof (slack_le x) end; cbn [slack] in Hf; lia].
+    + (* zero-length body: completed by the arrival of the next byte *)
+      cbn [length Nat.sub Nat.min firstn app skipn]. rewrite Nat.min_0_r. cbn [firstn skipn app length Nat.eqb].
+      rewrite IH; [|cbn; lia|cbn [slack] in *; lia].
+      rewrite Eb. cbn [run1]. unfold step1 at 2. cbn [eps length Nat.eqb].
+      unfold step1. cbn [eps]. destruct (consume (Header []) b0) as [s1 e1].
+      destruct (run1 s1 buffer0) as [s2 e2]. reflexivity.
+  - (* Finished *) rewrite Eb. cbn [run1]. unfold step1; cbn [eps consume]. now rewrite run1_failed.
+  - (* Failed *) now rewrite run1_failed.
+Qed.
+
+(* THE PROPERTY for this decoder: cutting the input anywhere gives the same events and state *)
+Corollary chunk_independent s a b : wf s ->
+  bulk (2 * length (a ++ b) + 2) s (a ++ b) =
+  let '(s1, e1) := bulk (2 * length a + 2) s a in
+  let '(s2, e2) := run1 s1 b in (s2, e1 ++ e2).
+Proof.
+  intros W. rewrite !bulk_is_run1 by (assumption || (pose proof (slack_le s); lia)). apply run1_app.
 Qed.
 End D.
+Print Assumptions chunk_independent.
